@@ -144,6 +144,11 @@ func main() {
 							// the code under test => a finding about that code; harness code => harness fault
 							if fn := panickingFunction(st); strings.HasPrefix(fn, "github.com/vipnode/vipnode/v2/") && !strings.Contains(fn, "/internal/verif/") {
 								u.Violate("panic-in-code-under-test/"+units[idx].Name, fmt.Sprintf("%v in %s (called from the harness outside any recovering oracle)\n%s", r, fn, firstLines(st, 40)), nil)
+							} else if raisedInMathBig(st) {
+								// the harness only reads numbers (String/Cmp on balances of the state under test); math/big
+								// panics on such a read only when the number's digits were overwritten in place behind its
+								// back, i.e. the code under test corrupted a stored or shared big.Int
+								u.Violate("corrupt-number-in-state/"+units[idx].Name, fmt.Sprintf("%v: math/big cannot read a big.Int held in the state of the code under test (harness frame %s); its digit slice was modified in place while shared\n%s", r, fn, firstLines(st, 40)), nil)
 							} else {
 								u.R.Infra = fmt.Sprintf("harness panic in unit %s: %v\n%s", units[idx].Name, r, st)
 							}
@@ -171,6 +176,25 @@ func main() {
 		fmt.Fprintln(os.Stderr, "INFRA: need -list, -serve or -replay")
 		os.Exit(2)
 	}
+}
+
+// raisedInMathBig reports whether the first non-runtime frame below the panic call is a math/big function.
+func raisedInMathBig(st string) bool {
+	seenPanic := false
+	for _, l := range strings.Split(st, "\n") {
+		if strings.HasPrefix(l, "\t") || l == "" {
+			continue
+		}
+		if strings.HasPrefix(l, "panic(") {
+			seenPanic = true
+			continue
+		}
+		if !seenPanic || strings.HasPrefix(l, "runtime.") || strings.HasPrefix(l, "runtime/") {
+			continue
+		}
+		return strings.HasPrefix(l, "math/big.")
+	}
+	return false
 }
 
 // panickingFunction returns the function in which the panic recorded in stack trace st was raised
